@@ -180,10 +180,10 @@ pub mod streaming_kzg {
     { lemma_peval_trailing_zeros(fviews(v), x, p.len(), v.len()); lemma_peval_ext(fviews(v), p.cv(), x, p.len()); }
     impl CommitterKey {
 //@stub from=streaming.rs id=streaming.time.commit vis=pub
-//@fn id=streaming.time.open_multi_points file=poly-commit/src/streaming_kzg/time.rs scope="impl<E: Pairing> CommitterKey<E>" name=open_multi_points props=C14,C01
+//@fn id=streaming.time.open_multi_points file=poly-commit/src/streaming_kzg/time.rs scope="impl<E: Pairing> CommitterKey<E>" name=open_multi_points props=C14,C01,C19
         pub fn open_multi_points(&self, polynomial: &[Fr], eval_points: &[Fr]) -> (res: EvaluationProof)
         ensures
-            tmp_post(self, polynomial@, eval_points@, &res),   // name=streaming.time.open_multi_points.proof_commits_to_the_quotient_by_the_vanishing_polynomial props=C14,C01
+            tmp_post(self, polynomial@, eval_points@, &res),   // name=streaming.time.open_multi_points.proof_commits_to_the_quotient_by_the_vanishing_polynomial props=C14,C01,C19
 //@body
 //@rw 1 /DensePolynomial::from_coefficients_slice\(polynomial\)/ => poly_from_slice(polynomial)
 //@rw * /\b(z_poly|f_poly|q_poly)\.len\(\)/ => \1.coeffs.len()
@@ -201,14 +201,14 @@ pub mod streaming_kzg {
                 assert(tmp_rel(self, polynomial@, eval_points@, msm(self.powers_of_g@, q_poly.cv(), min(self.powers_of_g@.len(), q_poly.len())), q_poly, rr));
             }
 //@end
-//@fn id=streaming.time.batch_open_multi_points file=poly-commit/src/streaming_kzg/time.rs scope="impl<E: Pairing> CommitterKey<E>" name=batch_open_multi_points props=C14,C01,C05
+//@fn id=streaming.time.batch_open_multi_points file=poly-commit/src/streaming_kzg/time.rs scope="impl<E: Pairing> CommitterKey<E>" name=batch_open_multi_points props=C14,C01,C05,C19
         pub fn batch_open_multi_points(&self, polynomials: &[Vec<Fr>], eval_points: &[Fr], eval_chal: &Fr) -> (res: EvaluationProof)
         requires
             self.powers_of_g2@.len() <= usize::MAX,
         ensures
             // the batch proof is the multi-point proof of the eta-weighted coefficient-wise sum  sum_i eta^i f_i  (the zero polynomial for an empty batch)
-            exists|bp: Seq<Fr>| #[trigger] tbm_rel(self, polynomials@, eval_points@, eval_chal@, &res, bp),   // name=streaming.time.batch_open_multi_points.opens_the_eta_weighted_sum props=C14,C01,C05
-            eval_points@.len() < self.powers_of_g2@.len(),   // name=streaming.time.batch_open_multi_points.more_points_than_g2_powers_aborts props=C14,C17
+            exists|bp: Seq<Fr>| #[trigger] tbm_rel(self, polynomials@, eval_points@, eval_chal@, &res, bp),   // name=streaming.time.batch_open_multi_points.opens_the_eta_weighted_sum props=C14,C01,C05,C19
+            eval_points@.len() < self.powers_of_g2@.len(),   // name=streaming.time.batch_open_multi_points.more_points_than_g2_powers_aborts props=C14,C17,C19
 //@body
 //@rw 1 /linear_combination\(polynomials, &etas\)\.unwrap_or_else\(\|\| vec!\[E::ScalarField::zero\(\)\]\)/ => opt_vec_or_zero1(linear_combination(polynomials, etas.as_slice()))
 //@rw 1 /self\.open_multi_points\(&batched_polynomial, eval_points\)/ => let res__ = self.open_multi_points(batched_polynomial.as_slice(), eval_points); proof { assert(tbm_rel(self, polynomials@, eval_points@, eval_chal@, &res__, batched_polynomial@)); } res__
